@@ -307,6 +307,7 @@ func ruleF2(c *Ctx) {
 		covered := map[*types.Var]bool{}
 		coveredElems := false
 		for _, f := range freezeTree(fz) {
+			f := f
 			eachInstr(f, func(in ssa.Instruction) {
 				ci, ok := in.(ssa.CallInstruction)
 				if !ok {
@@ -322,6 +323,40 @@ func ruleF2(c *Ctx) {
 				}
 				if len(tr.fields) == 0 {
 					coveredElems = true
+				}
+				// the receiver is (an element of) a parameter of a helper in the tree, e.g.
+				// freezeTuples(fn.defaults, fn.freevars): follow it to the arguments at the helper's call sites
+				if f != fz {
+					for _, b := range tr.bases {
+						prm, ok := b.v.(*ssa.Parameter)
+						if !ok {
+							continue
+						}
+						idx := -1
+						for i, q := range f.Params {
+							if q == prm {
+								idx = i
+							}
+						}
+						for _, g := range freezeTree(fz) {
+							eachInstr(g, func(in2 ssa.Instruction) {
+								cs, ok := in2.(ssa.CallInstruction)
+								if !ok || cs.Common().StaticCallee() != f || idx < 0 || idx >= len(cs.Common().Args) {
+									return
+								}
+								arg := cs.Common().Args[idx]
+								vals := []ssa.Value{arg}
+								for _, e := range variadicElems(arg) {
+									vals = append(vals, e)
+								}
+								for _, v := range vals {
+									for _, fl := range traceAddr(v).fields {
+										covered[fl] = true
+									}
+								}
+							})
+						}
+					}
 				}
 			})
 		}
